@@ -16,6 +16,8 @@ A case is a JSON-able dict:
     msleep  {task index: seconds}   sleep inside the task function (how the master is made slow)
     boom    list of task indices whose task function raises ValueError
     logs    bool            every task emits one log record
+    boomkind str            the exception kind the raising tasks use (ValueError, StopIteration, SystemExit0, KeyboardInterrupt, …)
+    does    str             what the task function does besides computing: nested (parallel map inside, inner=[ncpu, n]) | thread | mpchild
     rsize   int             every result carries a payload of that many bytes (results larger than the 64 KiB pipe buffer)
     summary bool            large runs: order/values are checked in the caller, only a summary comes back
     watchdog float          watchdog time of this case (default: the global one)
@@ -34,22 +36,83 @@ import struct
 import time
 
 WATCHDOG_S = float(os.environ.get('VERIF_C09_WATCHDOG', '10'))
-CONCURRENCY = int(os.environ.get('VERIF_C09_JOBS', '10'))
+CONCURRENCY = int(os.environ.get('VERIF_C09_JOBS', '12'))
 
 
-def task_func(i, k=0, sleep=0.0, boom=False, log=False, rsize=0, rss=None, tl=None):
-    """The mapped function: returns (task number, a pure function of the arguments, os pid, a draw[, payload])."""
+class TaskAbort(BaseException):
+    """an exception of the task function that is not an `Exception`"""
+
+
+def _raise(kind, i):
+    """what a failing task function does: the exception kinds include the control-flow exceptions that loops, iterators
+    and the process bootstrap give a meaning of their own"""
+    if kind == 'StopIteration':
+        next(iter(()))                                  # an exhausted iterator inside the task
+    if kind == 'SystemExit0':
+        raise SystemExit(0)                             # sys.exit() in the task
+    if kind == 'SystemExit3':
+        raise SystemExit(3)
+    exc = {'ValueError': ValueError, 'KeyboardInterrupt': KeyboardInterrupt, 'GeneratorExit': GeneratorExit,
+           'StopAsyncIteration': StopAsyncIteration, 'AssertionError': AssertionError, 'KeyError': KeyError,
+           'TaskAbort': TaskAbort, 'MemoryError': MemoryError}[kind]
+    raise exc('task %d fails' % i)
+
+
+def _inner(j, m=1):
+    return j * m
+
+
+def _mp_child(q, v):
+    q.put(v * 2)
+
+
+def nestval(does, inner, i):
+    """what a task adds to its value when it does more than computing (see task_func)"""
+    if does == 'nested':
+        return sum(j * (i + 1) for j in range(inner[1]))
+    if does == 'thread':
+        return 7
+    if does == 'mpchild':
+        return 2 * (i + 1)
+    return 0
+
+
+def task_func(i, k=0, sleep=0.0, boom=False, log=False, rsize=0, bk='ValueError', does=None, inner=(1, 0), rss=None, tl=None):
+    """The mapped function: returns (task number, a pure function of the arguments, os pid, a draw[, payload]).
+    `does`: what the function does besides computing — 'nested': it runs a parallel map itself, 'thread': it computes in a
+    thread of its own, 'mpchild': it starts a multiprocessing child."""
     if sleep:
         time.sleep(sleep)
     if boom:
-        raise ValueError('task %d fails' % i)
+        _raise(bk, i)
     if log:
         import logging
         logging.getLogger('skyllh.verif.c09').warning('task %d', i)
+    extra = 0
+    if does == 'nested':
+        from skyllh.core.multiproc import parallelize
+        r = parallelize(_inner, [((j,), {'m': i + 1}) for j in range(inner[1])], inner[0])
+        if r != [j * (i + 1) for j in range(inner[1])]:
+            raise AssertionError('inner parallel map of task %d returned %r' % (i, r))
+        extra = sum(r)
+    elif does == 'thread':
+        import threading
+        box = []
+        t = threading.Thread(target=lambda: box.append(7))
+        t.start()
+        t.join()
+        extra = box[0]
+    elif does == 'mpchild':
+        import multiprocessing as mp
+        q = mp.Queue()
+        p = mp.Process(target=_mp_child, args=(q, i + 1))
+        p.start()
+        extra = q.get(timeout=5)
+        p.join()
     draw = None if rss is None else int(rss.random.randint(0, 2**31 - 1))
     if rsize:
-        return (i, i * i + k, os.getpid(), draw, bytes([i % 251]) * int(rsize))
-    return (i, i * i + k, os.getpid(), draw)
+        return (i, i * i + k + extra, os.getpid(), draw, bytes([i % 251]) * int(rsize))
+    return (i, i * i + k + extra, os.getpid(), draw)
 
 
 def _strip(r):
@@ -72,7 +135,7 @@ def _kw_snapshot(args_list):
 def kval(case, i):
     """value of the keyword argument `k` of task i for the kwargs form of the case"""
     kw = (case.get('form') or {}).get('kwargs', 'own')
-    return {'own': 3 * i, 'shared': 5, 'empty': 0}[kw]
+    return {'own': 3 * i, 'shared': 5, 'empty': 0}[kw] + (nestval(case.get('does'), case.get('inner') or (1, 0), i) if kw == 'own' else 0)
 
 
 def _encode(kind, r):
@@ -146,6 +209,11 @@ def build_args_list(case, msleep, boom):
         else:
             d = {'k': 3 * i, 'sleep': msleep.get(i, 0.0), 'boom': i in boom, 'log': bool(case.get('logs')),
                  'rsize': int(case.get('rsize') or 0)}
+            if case.get('boomkind'):
+                d['bk'] = case['boomkind']
+            if case.get('does'):
+                d['does'] = case['does']
+                d['inner'] = tuple(case.get('inner') or (1, 0))
         a = [i] if form.get('args') == 'list' else (i,)
         out.append([a, d] if form.get('pair') == 'list' else (a, d))
     c = form.get('container', 'list')
